@@ -249,6 +249,8 @@ def main(a):
         parts["corpus"] = batch("CORPUS", 0, 0, counts.get("CORPUS", 0))
         parts["prefix"] = batch(pk, 0, 0, counts.get(pk, 0))
         parts["token"] = batch(tk, 0, 0, counts.get(tk, 0))
+        ck = "CONFIG" if thorough else "CONFIGQ"
+        parts["config"] = batch(ck, 0, 0, counts.get(ck, 0))
         t_enum = time.time() - t1
         t1 = time.time()
         if thorough:
@@ -298,7 +300,7 @@ def main(a):
                         twin_cands.append({"run": r, "kind": kind, "seed": seed})
         t_twin = time.time() - t1
 
-        kinds = {"corpus": "CORPUS", "prefix": pk, "token": tk, "random": "RUNS", "light": "LIGHT"}
+        kinds = {"corpus": "CORPUS", "prefix": pk, "token": tk, "random": "RUNS", "light": "LIGHT", "config": ck}
         cands = []
         for name, part in parts.items():
             for c in part["candidates"]:
@@ -456,6 +458,9 @@ def main(a):
                     "single_token_replacement": {"kind": tk, "runs": parts["token"]["executed"], "of": counts.get(tk, 0),
                                                  "what": "every token of every data line of " + ("every shipped file" if thorough else "input/example.*") + " x 19 replacement kinds x force_output on/off",
                                                  "complete": parts["token"]["executed"] == counts.get(tk, 0)},
+                    "config_combinations": {"kind": ck, "runs": parts["config"]["executed"], "of": counts.get(ck, 0),
+                                            "what": "all 480 valid GM2CalcConfig combinations (5 output formats x 3 loop orders x 2^5 switches) appended to " + ("every shipped file" if thorough else "input/example.* and three problem points"),
+                                            "complete": parts["config"]["executed"] == counts.get(ck, 0)},
                 },
                 "corpus_files": ncorpus, "random_plans": rnd["executed"],
                 "simulated_time": {"unit": "function entries of repository code (logical step clock)", "total": counters.get("steps", 0),
